@@ -85,7 +85,7 @@ func NewGen(g *pegread.Grammar) *Gen {
 	for _, r := range g.Rules {
 		walk(r.Expr)
 	}
-	add(0, '\t', '\n', '\r', ' ', 0x7f, 0x80, 0x85, 0xa0, 0xff, 0x100, 0x17f, 0x212a, 0x2028, 0x2029, 0xfeff, 0xfffd, 0xfffe, 0xffff, 0x10000, 0x1d7d8, 0x10ffff)
+	add(0, '\t', '\n', '\v', '\f', '\r', ' ', 0x1c, 0x1f, 0x1680, 0x2000, 0x200a, 0x202f, 0x205f, 0x3000, 0x7f, 0x80, 0x85, 0xa0, 0xff, 0x100, 0x17f, 0x212a, 0x2028, 0x2029, 0xfeff, 0xfffd, 0xfffe, 0xffff, 0x10000, 0x1d7d8, 0x10ffff)
 	for c := range set {
 		x.Runes = append(x.Runes, c)
 	}
